@@ -30,6 +30,10 @@ def tasks(ctx):
     # nothing outside the instruction cycle ends (or starts) the idle state: the button-press callback only leaves STOP,
     # and the halted / haltbug flags are written by halt() and the interrupt check alone
     ts.append(Task("(*cpu.CPU).OnInput", "(*cpu.CPU).OnInput"))
+    # the lemmas use the interrupt controller through its contracts ("pending" = some interrupt both enabled in IE and requested
+    # in IF, bits 0-4 only): those contracts are discharged here too
+    from props.C04 import I, IFUNCS
+    ts += [Task(I + f, I + f) for f in IFUNCS]
     ts.append(scan_lemma("scan:halt-state-written-only-by-halt-and-the-interrupt-check", halt_writers, ["package cpu (SSA scan)"]))
     return filter_tasks(ts)
 
